@@ -250,9 +250,18 @@ fn is_v(t: ValueType) -> bool {
 }
 
 fn o13_1<const N: usize>() {
+    o13_1_shape::<N>(None);
+}
+
+/// `keys`: Some(concrete key bytes) fixes the *shape* (which entries share a key) and leaves seqnos,
+/// types, values, watermark, evict flag and the entry beneath symbolic - much cheaper for CBMC.
+fn o13_1_shape<const N: usize>(keys: Option<[u8; N]>) {
     let mut input: [E; N] = [any_e(true); N];
     for i in 0..N {
         input[i] = any_e(true);
+        if let Some(ks) = keys {
+            input[i].k = ks[i];
+        }
         // write-once keys: only inserts and weak deletes
         kani::assume(is_w(input[i].t) || is_v(input[i].t));
     }
@@ -265,7 +274,14 @@ fn o13_1<const N: usize>() {
     }
     let watermark: u64 = kani::any();
     let evict: bool = kani::any();
-    let probe: u8 = kani::any();
+    let probe: u8 = match keys {
+        Some(ks) => {
+            let i: usize = kani::any();
+            kani::assume(i < N);
+            ks[i]
+        }
+        None => kani::any(),
+    };
     // what lies beneath the compaction for the probed key continues the alternation
     let mut last: Option<E> = None;
     for e in input.iter() {
@@ -297,7 +313,7 @@ fn o13_1<const N: usize>() {
     assert!(is_subsequence(&input, &out), "output must be a subsequence of the input");
 
     let n_out = out.iter().flatten().count();
-    kani::cover!(N >= 2 && n_out == 0 && is_w(input[0].t) && !evict, "W and V dropped together");
+    kani::cover!(N >= 2 && n_out + 2 <= N && is_w(input[0].t) && !evict, "W and V dropped together");
     kani::cover!(is_w(input[0].t) && n_out == N, "lone / young W retained");
     kani::cover!(older.is_some() && last.is_some());
 }
@@ -316,6 +332,30 @@ fn o13_1_weak_delete_n2() {
 #[kani::stub(std::alloc::handle_alloc_error, crate::vk_common::alloc_err_stub)]
 fn o13_1_weak_delete_n3() {
     o13_1::<3>();
+}
+
+#[kani::proof]
+#[kani::unwind(5)]
+#[kani::stub(alloc::sync::Arc::drop_slow, crate::vk_common::arc_drop_slow_stub)]
+#[kani::stub(std::alloc::handle_alloc_error, crate::vk_common::alloc_err_stub)]
+fn o13_1_weak_delete_shape_aaa() {
+    o13_1_shape::<3>(Some([b'a', b'a', b'a']));
+}
+
+#[kani::proof]
+#[kani::unwind(5)]
+#[kani::stub(alloc::sync::Arc::drop_slow, crate::vk_common::arc_drop_slow_stub)]
+#[kani::stub(std::alloc::handle_alloc_error, crate::vk_common::alloc_err_stub)]
+fn o13_1_weak_delete_shape_aab() {
+    o13_1_shape::<3>(Some([b'a', b'a', b'b']));
+}
+
+#[kani::proof]
+#[kani::unwind(5)]
+#[kani::stub(alloc::sync::Arc::drop_slow, crate::vk_common::arc_drop_slow_stub)]
+#[kani::stub(std::alloc::handle_alloc_error, crate::vk_common::alloc_err_stub)]
+fn o13_1_weak_delete_shape_abb() {
+    o13_1_shape::<3>(Some([b'a', b'b', b'b']));
 }
 
 // =============================================================================================
